@@ -19,9 +19,22 @@ def run(R, job):
     class Rp:
         def _repr_html_(self): return "<repr/>"
 
+    class Widget:
+        "both protocols: tagify() (so it is a Tagifiable: kept as itself) and _repr_html_()"
+        def tagify(self): return core.Tag("b", "w")
+        def _repr_html_(self): return "<b>w</b>"
+
+    class HookBoom(Exception):
+        pass
+
     for it in range(n):
         outer_log = []
-        def base(v): outer_log.append(v)
+        raising_base = it % 5 == 4          # an enclosing hook that fails when it is handed a finished tag
+
+        def base(v):
+            outer_log.append(v)
+            if raising_base and isinstance(v, core.Tag):
+                raise HookBoom()
         saved = sys.displayhook
         sys.displayhook = base
         tags = [core.Tag("div") for _ in range(4)]
@@ -34,7 +47,7 @@ def run(R, job):
             k = r.random()
             if depth <= 0 or k < 0.35:
                 import collections
-                v = r.choice(["text", 3, None, Ellipsis, Rp(), core.Tag("span"), core.TagList("a"), {"bad": 1}, object(), b"<raw bytes>", range(3), collections.deque(["x"]), ["in", [b"list"]], 2.5])
+                v = r.choice(["text", 3, None, Ellipsis, Rp(), Widget(), core.Tag("span"), core.TagList("a"), {"bad": 1}, object(), b"<raw bytes>", range(3), collections.deque(["x"]), ["in", [b"list"]], 2.5])
                 desc.append(f"display({type(v).__name__})")
                 target = active[-1] if active else None
                 ok = True
@@ -44,7 +57,7 @@ def run(R, job):
                     ok = False
                 if target is None:
                     return
-                acceptable = isinstance(v, (str, int, float, core.Tag, core.TagList, Rp))
+                acceptable = isinstance(v, (str, int, float, core.Tag, core.TagList, Rp, Widget))
                 if v is None or v is Ellipsis:
                     if not ok: problems.append("None/Ellipsis raised")
                 elif acceptable:
@@ -99,7 +112,7 @@ def run(R, job):
             for _ in range(r.choice([1, 2, 3])):
                 try:
                     block(3)
-                except (Boom, TypeError):
+                except (Boom, TypeError, HookBoom):
                     desc.append("!exc")
         finally:
             final = sys.displayhook
